@@ -3297,6 +3297,9 @@ class PWConstr:
         # like forall() of an affine constraint: the set is given to this
         # constraint itself (also when it is already part of a model), and
         # the constraint is returned
+        # a collection may be an iterator: read it once for all pieces
+        args = tuple(flat([arg]) if isinstance(arg, Iterable) else arg
+                     for arg in args)
         for piece in self.pieces:
             if isinstance(piece, (DecLinConstr, DecBounds, RoConstr)):
                 piece.forall(*args)
@@ -5305,6 +5308,9 @@ class DecLinConstr(LinConstr):
         if not isinstance(ambset, (LinConstr, Bounds, CvxConstr, Iterable)):
             if self.model.top is not ambset.model:
                 raise ValueError('Models mismatch.')
+        elif isinstance(ambset, Iterable):
+            # read once: the set is used for every scenario
+            ambset = flat([ambset])
 
         self.ambset = ambset
         if self.model.top is not None:
@@ -5343,6 +5349,8 @@ class ExpPWConstr(PWConstr):
     def forall(self, ambset):
 
         # in place, like forall() of the other constraints
+        if isinstance(ambset, Iterable):
+            ambset = flat([ambset])
         self.ambset = ambset
         top = getattr(self.model, 'top', None)
         if top is not None:
